@@ -15,6 +15,7 @@ CONSTANTS
   InstRes = {"value"}
   TermKinds = {"ret"}
   MaxSrc = 2
+  TrackQueries = FALSE
   Observers = {"PrintModule"}
   EmitFile = "transitions.ndjson"
 VIEW View
